@@ -92,6 +92,8 @@ def parse(text):
 
 _REPARSER = {}
 _LONG = {}
+_FIRST = {}
+PROBE_TEXTS = ["12x + 12y", "4x + 2x", "6 + 8", "2x * 3x", "12x + 6", "9y^2 + 3y^2", "10 + 4", "8x + 12x", "2x + 3 = 7", "x * x^2", "4 - 3x", "6 / -z", "(x + 1) * 2", "3x + 9y"]
 
 
 def reparse(printed):
@@ -441,6 +443,23 @@ def _events_for_text(job):
                         pass
                 del dt
             out.extend(reprobe_event(t0.clone(), _LONG["rules"], text, "long-lived"))
+            # a handful of fixed trees are asked about again and again over the life of the process (by brand-new rule objects):
+            # the answers are what they were the first time, whatever was done in between
+            for pt in PROBE_TEXTS[common.pick(text, 3)::3]:
+                tree = parse(pt)
+                nodes = inorder(tree)
+                now = []
+                for _, _, r in rules(pos=False):
+                    row = []
+                    for nd in nodes:
+                        try:
+                            row.append(bool(r.can_apply_to(nd)))
+                        except BaseException:  # noqa
+                            row.append(False)
+                    now.append(row)
+                first = _FIRST.setdefault(pt, now)
+                if first != now:
+                    out.append({"typ": "reprobe", "rule": "same-tree-later-in-the-process:" + pt, "opt": "", "text": text, "k": 0, "used": now, "fresh": first})
         except BaseException:  # noqa
             pass
     if second and firsts:
